@@ -127,6 +127,10 @@ func runCheckUnstake(ctx *action.Context, tx action.RawTx) (bool, action.Respons
 		return false, action.Response{Log: err.Error()}
 	}
 
+	if v := ust.Stake.Value.BigInt(); v.Sign() < 0 || !v.IsInt64() {
+		return false, action.Response{Log: action.ErrInvalidAmount.Error()}
+	}
+
 	if ctx.EvidenceStore.IsFrozenValidator(ust.ValidatorAddress) {
 		return false, action.Response{Log: evidence.ErrFrozenValidator.Error()}
 	}
